@@ -33,6 +33,8 @@ VALS = [0.0, 0.0, 1.0, 2.0, -1.0, 3.5, 7.0]
 
 
 def nontrivial(case):
+    if case.get("w") == "large":
+        return True
     ops = case["ops"]
     return len(ops) >= 2 and any(o["k"].startswith("set") for o in ops)
 
@@ -343,6 +345,10 @@ def gen_cases(tier, seed):
         h["w"] = "history"
         h["so_seed"] = int(rng.integers(0, 2 ** 31))
         yield h
+    # large operands: thousands of stored entries, read and written thousands of subscripts at a time (any blocking / chunking inside the
+    # helpers must be invisible); kept as generator parameters, expanded in run_case
+    for i in range(2 if tier == "quick" else 10):
+        yield {"w": "large", "shape": [[30, 30, 10], [40, 25, 12], [96, 96], [20, 20, 20]][i % 4], "nnz": [2600, 3500, 2800, 4300][i % 4], "lseed": int(rng.integers(0, 2 ** 31))}
     # forced corners ---------------------------------------------------------------------------
     for i in range(100 if tier == "quick" else 1000):
         shape = gen.rand_shape(rng, int(rng.integers(1, 4)), 2, 4)
@@ -430,6 +436,8 @@ def _exec_history(case, ctx):
         S = gen.mk_sptensor(ttb, A, gen.stored_order(rng, nnz, "shuffled"))
         model = Model(A)
     ctx.feat(start=start, forced=case.get("forced"))
+    ctx._retained = []
+    kept = []
     for step, op in enumerate(case["ops"]):
         before = ctx.nviol
         ctx.feat(step=min(step, 3), **{k: None for k in ("nlists", "nints", "nadv", "has_neg", "order_growth", "rhs", "mix", "scalar_rhs", "first_zero", "grows", "zero_value", "form")})
@@ -437,6 +445,34 @@ def _exec_history(case, ctx):
         _exec_op(ctx, op, T, S, model)
         if ctx.nviol > before:
             return step
+        fresh, ctx._retained = ctx._retained, []
+        if op["k"].startswith("get") and model.M is not None and model.M.size <= 400:
+            for opn, holder, got, val in fresh:
+                if step % 2 == 0:
+                    # overwrite the read result in place: the tensor it was read from does not move
+                    buf = got if isinstance(got, np.ndarray) else (got.data if kind(got) == "tensor" else got.vals)
+                    if buf.size and buf.flags.writeable:
+                        buf[...] = 123.0
+                        _cmp_state(ctx, opn, T, S, model)
+                        for h_, X_ in (("dense", T), ("sparse", S)):
+                            pass
+                else:
+                    kept.append((opn, holder, got, val))
+            kept = kept[-6:]
+            if ctx.nviol > before:
+                ctx.feat(read_result_overwritten=True)
+                return step
+        if op["k"].startswith("set"):
+            # results of earlier reads are unaffected by this write
+            for opn, holder, got, val in kept:
+                try:
+                    now = denote(got) if kind(got) in ("tensor", "sptensor") else np.asarray(got, dtype=float)
+                except DenoteError:
+                    continue
+                ctx.check(now.size == val.size and same(np.asarray(now, dtype=float).reshape(val.shape), val), opn, "READ-RESULT-CHANGED",
+                          f"{holder}: the result of an earlier read changed when the tensor was written to afterwards", holder=holder)
+            if ctx.nviol > before:
+                return step
     return None
 
 
@@ -451,6 +487,10 @@ def _cmp_read(ctx, op, holder, got, want):
         g = g.reshape(want.shape)  # (p,1) column vs (p,) vector, scalar vs 0-d
     ok = g.shape == want.shape and same(g.astype(float), want)
     ctx.check(ok, op, "WRONG-READ", lambda: f"{holder} read gives {np.asarray(g).tolist()} want {want.tolist()}", holder=holder)
+    # what a read hands out is the caller's: it is kept and looked at again after later writes, or overwritten at once (see _exec_history)
+    ret = getattr(ctx, "_retained", None)
+    if ok and ret is not None and (kind(got) in ("tensor", "sptensor") or isinstance(got, np.ndarray)) and np.asarray(want).size > 0:
+        ret.append((op, holder, got, g.astype(float).copy()))
 
 
 def _cmp_state(ctx, op, T, S, model):
@@ -663,7 +703,36 @@ def _valid(op, model):
     return False
 
 
+def _large_history(case):
+    rng = np.random.default_rng(case["lseed"])
+    shape = tuple(case["shape"])
+    size = int(np.prod(shape))
+    init = np.zeros(size)
+    pos = rng.choice(size, size=case["nnz"], replace=False)
+    init[pos] = rng.choice(VALS[2:], size=case["nnz"])
+    init = init.reshape(shape)
+    nz = np.argwhere(init != 0)
+    zz = np.argwhere(init == 0)
+    ops = [{"k": "get_subs", "subs": np.stack([rng.integers(0, I, size=4000) for I in shape], axis=1).tolist()},
+           {"k": "get_lin", "form": "slice", "v": [0, size, None]}]
+    take = nz[rng.choice(len(nz), size=min(len(nz), 1800), replace=False)]
+    new = zz[rng.choice(len(zz), size=min(len(zz), 1500), replace=False)]
+    rows = np.vstack([take, new])
+    vals = np.concatenate([np.where(rng.random(len(take)) < 0.4, 0.0, 9.0), rng.choice([4.0, 0.0, -3.0], size=len(new))])
+    pm = rng.permutation(len(rows))
+    ops.append({"k": "set_subs", "subs": rows[pm].tolist(), "vals": vals[pm].tolist()})
+    ops.append({"k": "get_subs", "subs": rows[pm][:3000].tolist()})
+    ops.append({"k": "get_region", "key": [{"s": [None, None, None]} for _ in shape]})
+    ops.append({"k": "set_region", "key": [{"s": [0, max(1, I // 2), None]} for I in shape], "rhs": "scalar", "v": 0.0})
+    ops.append({"k": "get_lin", "form": "slice", "v": [0, size, None]})
+    return {"w": "history", "start": "sparse", "init": init.tolist(), "shape": list(shape), "ops": ops, "so_seed": case["lseed"]}
+
+
 def run_case(case, ctx):
+    if case.get("w") == "large":
+        ctx.feat(large=True)
+        _safe_exec(_large_history(case), ctx)
+        return
     # probe run (not recorded) to find the first failing step, then shrink the history greedily
     probe = Ctx(ctx.prop)
     probe.begin(case)
